@@ -12,6 +12,7 @@ import (
 	"github.com/deckhouse/deckhouse/pkg/log"
 
 	kem "github.com/flant/shell-operator/pkg/kube_events_manager"
+	kemtypes "github.com/flant/shell-operator/pkg/kube_events_manager/types"
 	metricstorage "github.com/flant/shell-operator/pkg/metric_storage"
 )
 
@@ -102,7 +103,46 @@ func (e *c02Env) snap(m *c02Mon) bool {
 	}
 	e.c.Op(fmt.Sprintf("snap %d", m.spec.id), got)
 	e.c.Oracle(fmt.Sprintf("snap %d got=%s", m.spec.id, got))
+	if m.spec.flt > 0 {
+		// "each with the binding's filter applied": the documented result of the program, per object
+		e.c.Oracle(fmt.Sprintf("filt %d got=%s", m.spec.id, got))
+	}
 	return got == want
+}
+
+// c02Held: a snapshot an execution has read and keeps (a hook run holds the lists of its binding
+// contexts from UpdateSnapshots until the context file is written; admission / conversion requests,
+// other queues and the debug endpoint read the same binding meanwhile).
+type c02Held struct {
+	m     *c02Mon
+	list  []kemtypes.ObjectAndFilterResult
+	first string
+}
+
+// hold reads the binding's snapshot as an execution does and keeps the returned list. Only a read
+// that shows the quiet state is kept (the model then answers the same), nil otherwise.
+func (e *c02Env) hold(m *c02Mon) *c02Held {
+	mon := m.mgr.GetMonitor(m.id)
+	list := mon.Snapshot()
+	first := c02RenderSnap(list, m.spec.flt > 0)
+	if first != e.cl.wantSnap(m.spec) {
+		return nil
+	}
+	e.c.Op(fmt.Sprintf("hold %d", m.spec.id), first)
+	return &c02Held{m: m, list: list, first: first}
+}
+
+// lookAgain: the execution looks at the list it holds once more — after the cluster has changed and
+// other readers have taken snapshots of the same binding. It must read what it read before.
+func (e *c02Env) lookAgain(h *c02Held) bool {
+	again := c02RenderSnap(h.list, h.m.spec.flt > 0)
+	e.c.Op(fmt.Sprintf("held %d", h.m.spec.id), again)
+	e.c.Oracle(fmt.Sprintf("held %d first=%s again=%s", h.m.spec.id, h.first, again))
+	e.c.Note("held:looked-again")
+	if h.first != "-" {
+		e.c.Note("held:non-empty")
+	}
+	return again == h.first
 }
 
 // matchingNow: keys of the objects matching the binding right now, plus the matching namespaces.
@@ -134,6 +174,9 @@ func (e *c02Env) stop(m *c02Mon) {
 
 func c02RandSpec(rng *Rng, id int) c02MonSpec {
 	s := c02MonSpec{id: id, kind: rng.Range(1, 2), keep: rng.Bool(), flt: rng.Intn(3)}
+	if s.flt == 1 {
+		s.prog = c02GenProg(rng)
+	}
 	pickSome := func(n, max int) []int { _ = n; return c02PickList(rng, max) }
 	switch rng.Intn(6) {
 	case 0: // whole cluster
@@ -221,6 +264,9 @@ func (s c02MonSpec) bucket() string {
 		}
 	}
 	b = append(b, fmt.Sprintf("flt%d", s.flt))
+	if s.flt == 1 {
+		b = append(b, s.theProg().bucket())
+	}
 	return strings.Join(b, "+")
 }
 
@@ -418,11 +464,18 @@ func c02MonitorCase(c *Case, rng *Rng, spec c02MonSpec, withGap bool, nops int) 
 	e.setActive([]*c02Mon{m})
 	ok := e.snap(m) // the Synchronization point
 	for i := 0; ok && i < nops; i++ {
+		var held *c02Held
+		if rng.Chance(45) {
+			held = e.hold(m) // an execution keeps what it read while the cluster moves on
+		}
 		burst := rng.Range(1, 3)
 		for j := 0; j < burst; j++ {
 			h.randomOp(spec.kind, false)
 		}
-		ok = e.snap(m)
+		ok = e.snap(m) // the other readers of the binding
+		if held != nil && c.Inconcl == "" {
+			ok = e.lookAgain(held) && ok
+		}
 	}
 	if ok && rng.Chance(50) {
 		// restart: a fresh manager and monitor over the same cluster must show the same objects
@@ -525,14 +578,97 @@ func c02GhostCase(c *Case, variant int) {
 	c.Note("known:" + c02GhostID)
 }
 
+// corpus (fifth wave): an execution keeps the snapshot it read while two of four objects are deleted
+// and another reader takes the binding's snapshot; one static namespace = one informer.
+func c02HeldCorpusCase(c *Case) {
+	kem.DefaultSyncTime = time.Millisecond
+	e := &c02Env{c: c, cl: newC02Cluster(c.Idx)}
+	defer e.setActive(nil)
+	c.Op(c02RidLine(), "ok")
+	e.op(e.cl.nsSet(1, 0))
+	for n := 1; n <= 4; n++ {
+		e.op(e.cl.set(c02Key{1, 1, n}, c02Val{a: n, b: 9 - n}))
+	}
+	spec := c02MonSpec{id: 1, kind: 1, keep: true, flt: 0, nss: []int{1}}
+	m := e.newMon(spec)
+	defer e.stop(m)
+	if !e.add(m) {
+		return
+	}
+	e.start(m)
+	e.setActive([]*c02Mon{m})
+	if !e.snap(m) {
+		return
+	}
+	held := e.hold(m)
+	e.op(e.cl.del(c02Key{1, 1, 1}))
+	e.op(e.cl.del(c02Key{1, 1, 2}))
+	ok := e.snap(m)
+	if held != nil && c.Inconcl == "" {
+		ok = e.lookAgain(held) && ok
+	}
+	if ok {
+		// and once more after a creation and a further read
+		held = e.hold(m)
+		e.op(e.cl.set(c02Key{1, 1, 1}, c02Val{a: 7, b: 7}))
+		e.snap(m)
+		if held != nil && c.Inconcl == "" {
+			e.lookAgain(held)
+		}
+	}
+	c.Nontrivial = true
+	c.Note("corpus:held-snapshot")
+	c.Desc = "corpus: a reader keeps its snapshot while objects are deleted / created and another reader reads the binding"
+}
+
+// corpus (fifth wave): jqFilters with two object outputs, with a scalar before an object, with no
+// output — Synchronization snapshot and a snapshot after a watch event.
+func c02FilterCorpusCase(c *Case, variant int) {
+	kem.DefaultSyncTime = time.Millisecond
+	e := &c02Env{c: c, cl: newC02Cluster(c.Idx)}
+	defer e.setActive(nil)
+	c.Op(c02RidLine(), "ok")
+	e.op(e.cl.nsSet(1, 0))
+	e.op(e.cl.set(c02Key{1, 1, 1}, c02Val{a: 3, b: 4, lbl: 1}))
+	objA := c02Term{kind: "f", f: c02ObjF("a", c02Path("data", "a"), "l", c02Path("metadata", "labels", "sel"))}
+	objB := c02Term{kind: "f", f: c02ObjF("a", c02Path("data", "b"), "b", c02Path("data", "b"))}
+	progs := []*c02Prog{
+		{terms: []c02Term{objA, objB}},
+		{terms: []c02Term{{kind: "f", f: c02Path("data", "a")}, objB}},
+		{terms: []c02Term{{kind: "empty"}}},
+		{terms: []c02Term{{kind: "iter", path: []string{"data"}}, objA, {kind: "empty"}}},
+	}
+	spec := c02MonSpec{id: 1, kind: 1, keep: variant%2 == 0, flt: 1, prog: progs[variant%len(progs)]}
+	m := e.newMon(spec)
+	defer e.stop(m)
+	if !e.add(m) {
+		return
+	}
+	e.start(m)
+	e.setActive([]*c02Mon{m})
+	if e.snap(m) {
+		e.op(e.cl.set(c02Key{1, 1, 2}, c02Val{a: 5, b: 6}))
+		e.op(e.cl.set(c02Key{1, 1, 1}, c02Val{a: 3, b: 8, lbl: 1}))
+		e.snap(m)
+	}
+	c.Nontrivial = true
+	c.Note("corpus:jq-outputs")
+	c.Desc = "corpus: jqFilter " + spec.prog.text()
+}
+
 func runC02(r *Run) {
 	r.CaseTimeout = 150 * time.Second
-	r.Rule = "real kubeEventsManager/monitor/resourceInformer over kube-client/fake (list/watch made selector-faithful by harness reactors; one CRD group per case so that the process-wide informer factory store is not shared): random binding selectors (all namespaces / namespace.nameSelector / namespace.labelSelector, nameSelector, labelSelector, fieldSelector, keepFullObjectsInMemory, jqFilter / FilterFunc / none) x random histories over 4 namespaces x 4 names x 2 kinds (create, modify inside/outside the filter projection, label flips, delete, delete+recreate, namespace create / relabel / delete with its objects, safe changes between AddMonitor and StartMonitor, restart = second manager on the same cluster); snapshots observed at the Synchronization point and after every burst. Multi cases: 2-5 bindings (monitors) over one cluster, on one shared or on separate managers, whose selectors are derived from one base so that their informers fall on the same process-wide shared informer (same kind / namespace / label / field selector), started and stopped (StopMonitor) at random points of the history, namespaces leaving a namespace.labelSelector binding while a sibling still watches them; every live monitor is observed after every step. matchNames lists carry repeated entries at arbitrary positions in about a third of the lists. Exec cases: real HookConfig.LoadAndValidate + HookController.UpdateSnapshots at Synchronization / Event / Schedule / Group / admission points with the cluster changed between the reads of one execution. Non-trivial: >= 2 creations and >= 2 further changes (monitor cases) or >= 2 contexts / an include list of >= 2 names (exec cases); distinct = distinct op-line sequences."
+	r.Rule = "real kubeEventsManager/monitor/resourceInformer over kube-client/fake (list/watch made selector-faithful by harness reactors; one CRD group per case so that the process-wide informer factory store is not shared): random binding selectors (all namespaces / namespace.nameSelector / namespace.labelSelector, nameSelector, labelSelector, fieldSelector, keepFullObjectsInMemory, jqFilter / FilterFunc / none) x random histories over 4 namespaces x 4 names x 2 kinds (create, modify inside/outside the filter projection, label flips, delete, delete+recreate, namespace create / relabel / delete with its objects, safe changes between AddMonitor and StartMonitor, restart = second manager on the same cluster); snapshots observed at the Synchronization point and after every burst. Multi cases: 2-5 bindings (monitors) over one cluster, on one shared or on separate managers, whose selectors are derived from one base so that their informers fall on the same process-wide shared informer (same kind / namespace / label / field selector), started and stopped (StopMonitor) at random points of the history, namespaces leaving a namespace.labelSelector binding while a sibling still watches them; every live monitor is observed after every step. matchNames lists carry repeated entries at arbitrary positions in about a third of the lists. jqFilter programs (monitor, multi, exec and half of the conc cases): 12% the classic {a: .data.a}, 33% one expression (object construction with keys from a/b/l/x over .data.a/.data.b/.data.c(missing)/.data/.metadata.labels(.sel)/literals, scalars, arrays, null), 40% two to four top-level terms joined by `,` (object-valued ones with overlapping keys, scalars / arrays / null in between, `empty`, `.data[]`), 15% programs with no output or with non-object outputs only; the AST goes to the Lean side next to the text. Held snapshots: before 45% of the bursts (40% in multi cases) an execution reads the binding's snapshot and keeps the returned list, the cluster changes, the other readers take their snapshots, then the first reader looks at its list again. Exec cases: real HookConfig.LoadAndValidate + HookController.UpdateSnapshots at Synchronization / Event / Schedule / Group / admission points with the cluster changed between the reads of one execution; the contexts of the previous execution are kept and rendered again after the next execution has read the same bindings. Non-trivial: >= 2 creations and >= 2 further changes (monitor cases) or >= 2 contexts / an include list of >= 2 names (exec cases); distinct = distinct op-line sequences."
 	r.One(0, func(c *Case, _ *Rng) { c02DupNamesCase(c, false) })
 	r.One(1, func(c *Case, _ *Rng) { c02DupNamesCase(c, true) })
 	for v := 0; v < 3; v++ {
 		v := v
 		r.One(2+v, func(c *Case, _ *Rng) { c02GhostCase(c, v) })
+	}
+	r.One(5, func(c *Case, _ *Rng) { c02HeldCorpusCase(c) })
+	for v := 0; v < 4; v++ {
+		v := v
+		r.One(6+v, func(c *Case, _ *Rng) { c02FilterCorpusCase(c, v) })
 	}
 	n := r.N(400, 6000)
 	r.Cases(100, n, 0, func(c *Case, rng *Rng) {
